@@ -175,7 +175,7 @@ def run_oracle(chk, n_cases, procs):
     import time
     pool = mp.get_context("fork").Pool(procs)
     lost = 0
-    budget = 1500 if len(jobs) > 20 else 400
+    budget = 700 if len(jobs) > 20 else 300
     try:
         pending = [pool.apply_async(valid_oracle.worker, (j,)) for j in jobs]
         t_end = time.time() + budget
